@@ -113,3 +113,20 @@ package ice
 //@   modifies *c, fam:E_uint8
 //@   ensures decodes-controlling: attrHas(m, stun.AttrICEControlling) && attrLen(m, stun.AttrICEControlling) == 8 ==> result == nil && *c == attrBE64(m, stun.AttrICEControlling)
 //@   ensures missing-or-wrong-size: !attrHas(m, stun.AttrICEControlling) || attrLen(m, stun.AttrICEControlling) != 8 ==> result != nil && *c == old(*c)
+
+// Parsing the extension list: every key/value pair becomes an extension, in order, except the pair
+// whose key is exactly "tcptype" (the only key Marshal writes from the TCP type), which is returned
+// as the raw TCP type and never stored.
+//@ func unmarshalCandidateExtensions
+//@   props C16
+//@   opt nosafety
+//@   ghostvar k string = ""
+//@   ghostvar v string = ""
+//@   ghostvar n0 int = 0 - 1
+//@   ghostvar r0 string = ""
+//@   site call readCandidateByteString#1 ghost before n0 := len(extensions)
+//@   site call readCandidateByteString#1 ghost before r0 := rawTCPTypeRaw
+//@   site call readCandidateByteString#1 ghost k := result0
+//@   site call readCandidateByteString#1 ghost v := ""
+//@   site call readCandidateByteString#2 ghost v := result0
+//@   loop 1 invariant every-pair-but-exactly-tcptype-becomes-an-extension: (k == "tcptype" && len(extensions) == n0 && rawTCPTypeRaw == v) || (k != "tcptype" && len(extensions) == n0 + 1 && rawTCPTypeRaw == r0 && (n0 >= 0 ==> extensions[n0].Key == k && extensions[n0].Value == v))
